@@ -1,0 +1,77 @@
+//go:build verif
+
+package hermes
+
+// Exports for the verification harness (properties C13 and C18): read-only views of unexported
+// state written by the paired input readers and by the crop-parameter override. Add-only file;
+// compiled only with the build tag `verif`.
+
+// VerifCropState is every field the crop parameter readers (classic / YAML) and the command-line
+// override write, in GlobalVarsMain and CropSharedVars.
+type VerifCropState struct {
+	MAXAMAX, MINTMP, WUMAXPF, VELOC, RGA, RGB, YIFAK, GEHOB, WUGEH float64
+	PHYLLO, VERNTAGE, TROOTSUM, KcIni, Tendsum                     float64
+	TempTyp, NGEFKT, SubOrgan, YORGAN, NRKOM, NRENTW               int
+	DOUBLE, ASIP, BLUET, REIF, ENDPRO                              int
+	DAUERKULT, LEGUM, UseBBCH                                      bool
+	AboveGroundOrgans                                              []int
+	WORG                                                           [5]float64
+	WDORG, MAIRT                                                   [10]float64
+	SUM, TSUM, BAS, VSCHWELL, DAYL, DLBAS, DRYSWELL                [10]float64
+	LUKRIT, LAIFKT, WGMAX, Kc, ENDBBCH                             [10]float64
+	DEV                                                            [10]int
+	PRO, DEAD                                                      [10][5]float64
+}
+
+// VerifCropDump copies the crop-parameter state out of g and l.
+func VerifCropDump(g *GlobalVarsMain, l *CropSharedVars) VerifCropState {
+	s := VerifCropState{
+		MAXAMAX: g.MAXAMAX, MINTMP: g.MINTMP, WUMAXPF: g.WUMAXPF, VELOC: g.VELOC, RGA: g.RGA, RGB: g.RGB,
+		YIFAK: g.YIFAK, GEHOB: g.GEHOB, WUGEH: g.WUGEH, PHYLLO: g.PHYLLO, VERNTAGE: g.VERNTAGE,
+		TROOTSUM: g.TROOTSUM, KcIni: l.kcini, Tendsum: l.tendsum,
+		TempTyp: l.temptyp, NGEFKT: g.NGEFKT, SubOrgan: g.SubOrgan, YORGAN: g.YORGAN, NRKOM: g.NRKOM, NRENTW: l.NRENTW,
+		DOUBLE: g.DOUBLE, ASIP: g.ASIP, BLUET: g.BLUET, REIF: g.REIF, ENDPRO: g.ENDPRO,
+		DAUERKULT: g.DAUERKULT, LEGUM: g.LEGUM, UseBBCH: l.useBBCH,
+		WORG: g.WORG, WDORG: g.WDORG, MAIRT: g.MAIRT, SUM: g.SUM, TSUM: g.TSUM, BAS: g.BAS, VSCHWELL: g.VSCHWELL,
+		DAYL: g.DAYL, DLBAS: g.DLBAS, DRYSWELL: g.DRYSWELL, LUKRIT: g.LUKRIT, LAIFKT: g.LAIFKT, WGMAX: g.WGMAX,
+		Kc: l.kc, ENDBBCH: l.ENDBBCH, DEV: g.DEV, PRO: g.PRO, DEAD: g.DEAD,
+	}
+	s.AboveGroundOrgans = append([]int{}, l.AboveGroundOrgans...)
+	return s
+}
+
+// VerifCropLoad puts a crop-parameter state into g and l (prior state of a second sowing).
+func VerifCropLoad(s *VerifCropState, g *GlobalVarsMain, l *CropSharedVars) {
+	g.MAXAMAX, g.MINTMP, g.WUMAXPF, g.VELOC, g.RGA, g.RGB = s.MAXAMAX, s.MINTMP, s.WUMAXPF, s.VELOC, s.RGA, s.RGB
+	g.YIFAK, g.GEHOB, g.WUGEH, g.PHYLLO, g.VERNTAGE, g.TROOTSUM = s.YIFAK, s.GEHOB, s.WUGEH, s.PHYLLO, s.VERNTAGE, s.TROOTSUM
+	l.kcini, l.tendsum, l.temptyp, l.NRENTW, l.useBBCH = s.KcIni, s.Tendsum, s.TempTyp, s.NRENTW, s.UseBBCH
+	g.NGEFKT, g.SubOrgan, g.YORGAN, g.NRKOM = s.NGEFKT, s.SubOrgan, s.YORGAN, s.NRKOM
+	g.DOUBLE, g.ASIP, g.BLUET, g.REIF, g.ENDPRO = s.DOUBLE, s.ASIP, s.BLUET, s.REIF, s.ENDPRO
+	g.DAUERKULT, g.LEGUM = s.DAUERKULT, s.LEGUM
+	g.WORG, g.WDORG, g.MAIRT, g.SUM, g.TSUM, g.BAS, g.VSCHWELL = s.WORG, s.WDORG, s.MAIRT, s.SUM, s.TSUM, s.BAS, s.VSCHWELL
+	g.DAYL, g.DLBAS, g.DRYSWELL, g.LUKRIT, g.LAIFKT, g.WGMAX = s.DAYL, s.DLBAS, s.DRYSWELL, s.LUKRIT, s.LAIFKT, s.WGMAX
+	l.kc, l.ENDBBCH, g.DEV, g.PRO, g.DEAD = s.Kc, s.ENDBBCH, s.DEV, s.PRO, s.DEAD
+	l.AboveGroundOrgans = append([]int{}, s.AboveGroundOrgans...)
+}
+
+// VerifWeatherFlags returns the flags of the optional weather columns
+// (hasWINDHI, hasALTITUDE, hasCO2KONZ, hasVERD, hasSUND, hasETNULL).
+func (s *WeatherDataShared) VerifWeatherFlags() [6]bool {
+	return [6]bool{s.hasWINDHI, s.hasALTITUDE, s.hasCO2KONZ, s.hasVERD, s.hasSUND, s.hasETNULL}
+}
+
+// VerifUseGroundwater returns the unexported groundwater flag of a loaded soil profile.
+func (s *SoilFileData) VerifUseGroundwater() bool { return s.useGroundwaterFromSoilfile }
+
+// VerifFilePath builds a file path set with the given soil file, observation file, rotation file
+// and folder of the precipitation correction file (the readers only look at these fields).
+func VerifFilePath(bofile, obs, crop, precorrFolder string) *HFilePath {
+	hp := &HFilePath{bofile: bofile, obs: obs, crop: crop}
+	hp.SetPreCorrFolder(precorrFolder)
+	return hp
+}
+
+// VerifIsValidCropOverwrite exposes the range validation of the override.
+func (cropOW *CropOverwrite) VerifIsValidCropOverwrite(numPartitions, numStages int) (bool, error) {
+	return cropOW.isValidCropOverwrite(numPartitions, numStages)
+}
